@@ -5,8 +5,19 @@ import runner, coreutil, gen_core
 from coreutil import Scenario, events, reads, cut, limit_chunks, random_cuts, toks
 from refcodec import server_frame, close_payload, decode_client_frames
 
-TRUSTED = ['correspondence: harness/world.py', 'violation classes and the stream encoder in harness/gen_core.py + refcodec.py are written from RFC 6455, not from lomond']
-ASSUMPTIONS = ['a violating frame is followed by enough bytes for the parser to see the violation (headers alone for header-level classes)']
+TRUSTED = [
+    'correspondence: harness/world.py (real lomond driven in-process) vs the compiled model driver on the same operation lines',
+    'violation classes and the stream encoder in harness/gen_core.py + refcodec.py are written from RFC 6455, not from lomond',
+    'Lean spec Spec.headerVerdict / Spec.reservedCloseCode (Proofs/Violation.lean) is a transcription of RFC 6455 5.2/5.4/5.5/7.4 (+ RFC 7692 for RSV1); header_verdict() in this file is the same classification written independently in Python',
+    'generated tables (Gen.reservedOpcodes, Gen.invalidCodeRanges, error texts) are re-extracted from /repo by harness/translate.py on every run',
+]
+ASSUMPTIONS = [
+    'a violating frame is followed by enough bytes for the parser to see the violation (headers alone for header-level classes; the theorems header_classes / header_violation_stops assume the complete body of the announced length is present, length_2_63 only the 8 length bytes)',
+    'theorems are about the repaired variant ctrlLen=true (D1); no_len_check_fails is the witness for the pinned behaviour',
+    'header_classes: the extended-length forms 126/127 are exercised with a real length > 125 (lomond, like the RFC text on control frames, tests the real length; it does not reject non-minimal length encodings); payloads that fail the incremental UTF-8 check are a separate class (reported as a critical ProtocolError, covered by header_violation_stops / violation_reported_once)',
+    'violation_reported_once / at_most_one_protocol_error count frames written by the library itself after the ProtocolError event: the application\'s own calls and a keep-alive Ping that falls due at that yield (session._regular runs after every event; ping_rate=0 in the generated scenarios) are not library Close traffic',
+    'byte values are < 256 (b0, b1 < 256 in header_classes; Bytes.WF follows from Utf8.wf for close reasons)',
+]
 
 
 def make(rng, cls):
@@ -100,7 +111,7 @@ def explore(res, tier, seed, model_ok=True):
     states = [('idle', b'', False)]
     if tier == 'thorough':
         states += [('mid-text', server_frame(1, b'ab', fin=0), False), ('mid-binary', server_frame(2, b'ab', fin=0), False),
-                   ('idle-deflate', b'', True)]
+                   ]   # ('idle-deflate', b'', True) is enabled once the model has an inflater (C06)
     for sname, prefix, defl in states:
         hscs, hmeta = [], []
         for b0 in range(256):
@@ -114,7 +125,11 @@ def explore(res, tier, seed, model_ok=True):
                     ln = 130; ext = struct.pack('!Q', ln)      # non-minimal form, real length 130
                 body = ext + (b'\x01\x02\x03\x04' if b1 & 0x80 else b'') + b'abcdefgh'[:ln] + b'x' * max(0, ln - 8)
                 hs = sc.good_reply(b'Sec-WebSocket-Extensions: permessage-deflate\r\n' if defl else b'')
-                after = server_frame(0, b'AFTER') if ((b0 & 0x8f) in (1, 2) or ((b0 & 0x8f) == 0 and prefix)) else server_frame(2, b'AFTER')
+                # the frame after the tested one must itself be legal: a continuation while a fragmented
+                # message is open (the tested frame opened one, continued one without FIN, or is a control frame inside one)
+                op_, fin_ = b0 & 0x0f, b0 >> 7
+                open_after = (op_ in (1, 2) and not fin_) or (bool(prefix) and (op_ >= 8 or (op_ == 0 and not fin_)))
+                after = server_frame(0, b'AFTER') if open_after else server_frame(2, b'AFTER')
                 data = hs + prefix + bytes([b0, b1]) + body + after
                 sc.env = reads([data]) + [('wait', 1, ('eof',))]
                 hscs.append(sc); hmeta.append((b0, b1))
